@@ -36,6 +36,8 @@ def patches(only):
         m = json.load(open(meta))
         if m.get('neutralised_by'):
             continue      # a later repository fix made the change harmless (its demonstration exits 0): nothing to catch
+        if m.get('not_detectable'):
+            continue      # recorded as out of reach of these monitors (DESIGN.md section 9.6), listed in the kill table
         # a seeded change is run against the check(s) recorded as catching it (its own property unless it can only
         # manifest through another property's workload, e.g. a cold-start race seeded under C15 -> C19)
         owner = m['property'] if m['property'] in m.get('caught_by', [m['property']]) else m['caught_by'][0]
